@@ -624,7 +624,15 @@ def check_kwargs(ctx, model):
                 names = list(s.itstat_object.fieldname)
                 if kw.get("itstat_options") in ("custom", "custom-same"):
                     continue
-                evaluable = bool(spec.get("has_eval", True))
+                fg, fh, gs = D.functional_flags(spec)
+                evaluable = bool(model.call("objeval", cls=cls, fgiven=fg, fhas=fh, gs=gs))
+                real_ev = bool(s._objective_evaluatable())
+                ctx.count(f"objective evaluable:{real_ev}")
+                if real_ev != evaluable or evaluable != D.objective_evaluable(spec):
+                    ctx.disagree("driver.fields", dict(case, what="_objective_evaluatable"), real_ev, evaluable,
+                                 oracle=lambda c, r=real_ev, d=D.objective_evaluable(spec): {**c, "fails": f"_objective_evaluatable() = {r} although "
+                                 f"{'every' if d else 'not every'} functional of the problem can be evaluated"} if r != d else None)
+                    continue
                 want = model.call("fields", cls=cls, solver=spec.get("solver", "other"), obj=evaluable)
                 ctx.count("fields:checked")
                 if names != want:
